@@ -83,12 +83,29 @@ JudgeBig(e) ==
     ELSE IF (e.pred \in {"maxdeg1", "maxdeg2"} \/ (e.pred = "maxedges3" /\ n >= 6)) /\ e.counts[1] # ClassCount(e.pred, n) THEN "the pruned search does not yield as many graphs as there are classes satisfying the predicate (closed form)"
     ELSE ""
 
+(* the number of graphs on n vertices up to isomorphism (OEIS A000088; n <= 7 is also what NumClasses computes by Burnside's lemma), *)
+(* and their total number of edges: every class has a complement, so the edges sum to classes * n(n-1)/4                            *)
+KnownClasses == <<1, 1, 2, 4, 11, 34, 156, 1044, 12346, 274668, 12005168, 1018997864>>
+JudgeCount(e) ==
+    LET tot == FoldLeft(LAMBDA a, b : a + b, 0, e.counts) IN
+    IF e.res # "ok" THEN e.res
+    ELSE IF e.n + 1 > Len(KnownClasses) THEN "HARNESS: no reference count for this n"
+    ELSE IF tot # KnownClasses[e.n + 1] THEN "the shards of the search do not yield as many graphs as there are isomorphism classes"
+    ELSE IF e.n <= 10 /\ 2 * FoldLeft(LAMBDA a, b : a + b, 0, e.edges) # tot * ((e.n * (e.n - 1)) \div 2)
+         THEN "the yielded graphs do not carry half of all possible edges on average (the classes are closed under complement)"
+    ELSE ""
+
 TInit == l = 1 /\ bad = <<>> /\ dead = FALSE /\ reps = {}
          /\ st = [segs |-> 0, runs |-> 0, graphs |-> 0, pruned |-> 0, sharded |-> 0, nontrivial |-> 0]
 TStep ==
     /\ l <= NEvents /\ l' = l + 1
     /\ IF Ev.ev = "Reset" THEN bad' = bad /\ dead' = FALSE /\ reps' = {} /\ st' = [st EXCEPT !.segs = @ + 1]
        ELSE IF dead THEN UNCHANGED <<bad, dead, reps, st>>
+       ELSE IF Ev.ev = "Count"
+       THEN LET why == JudgeCount(Ev) IN
+            /\ bad' = IF why = "" THEN bad ELSE Note(bad, [seg |-> Ev.seg, l |-> l, why |-> why \o " [n=" \o ToString(Ev.n) \o ",m=" \o ToString(Ev.m) \o ",count]"])
+            /\ dead' = (why # "") /\ UNCHANGED reps
+            /\ st' = [st EXCEPT !.runs = @ + 1, !.sharded = @ + 1]
        ELSE LET why == IF Ev.ev = "RunBig" THEN JudgeBig(Ev) ELSE JudgeRun(Ev) IN
             /\ bad' = IF why = "" THEN bad ELSE Note(bad, [seg |-> Ev.seg, l |-> l, why |-> why \o " [n=" \o ToString(Ev.n) \o ",m=" \o ToString(Ev.m) \o "," \o Ev.pred \o "," \o Ev.place \o "]"])
             /\ dead' = (why # "")
